@@ -8,8 +8,8 @@
 (*   each of py/abi/plat a non-empty sequence of tags (compressed set).    *)
 (* ALGORITHM: count the dashes, split on them, take the LAST three fields, *)
 (*   split each on dots.                                                   *)
-(* Mutations model the near-miss names: wrong extension, a field dropped,  *)
-(* an extra field.                                                         *)
+(* Mutations model the near-miss names: wrong extension, right extension   *)
+(* in the wrong case, a field dropped, an extra field.                     *)
 (***************************************************************************)
 EXTENDS Naturals, Sequences, FiniteSets, TLC
 
@@ -23,7 +23,7 @@ Names == [ distParts : 1..2,          \* dots inside the distribution name (foo.
            verParts  : 1..3,          \* 1.0.post1
            build     : BOOLEAN,
            py : 1..MaxTags, abi : 1..MaxTags, plat : 1..MaxTags,
-           mut : {"none", "ext", "drop", "extra", "extra2"} ]
+           mut : {"none", "ext", "extcase", "drop", "extra", "extra2"} ]
 
 Fields(nm) ==
   LET base == <<Dotted(nm.distParts), Dotted(nm.verParts)>>
@@ -36,7 +36,8 @@ Fields(nm) ==
 RECURSIVE JoinDash(_)
 JoinDash(fs) == IF Len(fs) = 1 THEN fs[1] ELSE fs[1] \o <<"DASH">> \o JoinDash(Tail(fs))
 Tokens(nm) == JoinDash(Fields(nm))
-Ext(nm) == IF nm.mut = "ext" THEN "zip" ELSE "whl"
+\* "WHL": the right extension in the wrong case - the comparison is on the text as given (packaging: endswith(".whl"))
+Ext(nm) == IF nm.mut = "ext" THEN "zip" ELSE IF nm.mut = "extcase" THEN "WHL" ELSE "whl"
 
 \* ----------------------------------------------------------------- MEANING
 \* PEP 427: {dist}-{version}(-{build})?-{py}-{abi}-{plat}.whl  -> 5 or 6 fields
